@@ -22,7 +22,7 @@ RULE = ("seeded link histories: frames of random bits -> PPM_ENCODER -> faulty s
         "frames, interleaved with gv (sps) reconfiguration, RNG reseeding and invalid-argument calls; distinct = "
         "(M, container, fault kinds in frame, RNG mode, outcome) signatures in runs with >=3 successful frames; "
         "'exh_*' tasks enumerate all words <=12 bits and all slot patterns <=16 slots for M<=8")
-WALL = {"quick": 120, "thorough": 300, "replay": 120}
+WALL = {"quick": 300, "thorough": 900, "replay": 600}
 BLOCK = {"quick": 100000, "thorough": 16384}
 SELFTEST = {"quick": 24, "thorough": 200}
 COMPONENTS_REAL = ["opticomlib.ppm.PPM_ENCODER", "opticomlib.ppm.PPM_DECODER", "opticomlib.ppm.HDD", "opticomlib.ppm.SDD",
@@ -63,6 +63,8 @@ def _gen_faults(rng, nsym, M, rate):
     faults = []
     if nsym == 0 or rate == 0:
         return faults
+    if nsym > 200:
+        rate = min(rate, 20.0 / nsym)      # long codewords: a handful of damaged symbols
     for s in range(nsym):
         if rng.random() < rate:
             k = rng.choice(["flip", "flip", "erase", "extra", "extra", "stuck", "burst"])
@@ -92,6 +94,8 @@ def generate(seed, tier):
             M = rng.choice(Ms)
             kb = M.bit_length() - 1
             nsym = rng.choice([0, 1, 1, 2, 3, 5, 8, 16, 40])
+            if rng.random() < 0.01:
+                nsym = rng.choice([5000, 70000]) if M <= 16 else 3000
             nbits = nsym * kb + (rng.randrange(kb) if rng.random() < 0.3 else 0)
             ops.append({"op": "frame", "M": M, "nbits": nbits, "bseed": rng.getrandbits(32),
                         "form": rng.choice(FORMS), "form2": rng.choice(FORMS),
